@@ -150,6 +150,9 @@ def run(F, chk):
             ra.violation(key, ss.where(ins[0]), "a new backend stream is registered and a path returns without arming the writer: its request is never sent")
     chunk_size_rule(F, chk)
     window_sign_rule(F, chk)
+    # a connection parked with response bytes still owed hands those bytes to the next request as its body (R-C02-f)
+    import C02
+    C02.keepalive_rule(F, chk, rid="R-C01-i")
     # ---------------- R-C01-b -----------------------------------------------------
     rb = chk.rule("R-C01-b", "T8", "TLS scalar and vectored write paths agree", floor=5)
     sw, sv = F.body(FRT + "socket_write"), F.body(FRT + "socket_write_vectored")
